@@ -114,6 +114,9 @@ func (ex *Exec) evalCE(p *Path, ce *CExpr) Value {
 			if _, isSlice := t.Underlying().(*types.Slice); isSlice {
 				invs = append(invs, ex.c.typeInvariant(Value{vn, t}))
 			}
+			if b, ok := t.Underlying().(*types.Basic); ok && b.Kind() == types.Float32 {
+				invs = append(invs, ex.c.typeInvariant(Value{vn, t}))
+			}
 		}
 		outer := ex.quantFacts
 		var facts []string
